@@ -356,15 +356,36 @@ static void deadlock_report(void)
 {
 	char b[768];
 	int l = snprintf(b, sizeof b, "deadlock:");
-	for(int i = 0; i < nth && l < (int)sizeof(b) - 80; ++i) {
+	/* canonical shape: the sorted set of (role, site) pairs the live threads are stuck at */
+	char ent[RS_MAXT][96];
+	int ne = 0;
+	for(int i = 0; i < nth; ++i) {
 		struct rs_thread *t = &TH[i];
 		if(t->state == T_DONE || t->state == T_UNUSED)
 			continue;
 		const char *f = t->file ? t->file : "?";
 		const char *s = strrchr(f, '/');
-		l += snprintf(b + l, sizeof(b) - l, " [%s%s@%s:%d]", t->role ? t->role : "thr",
-		    t->state == T_JOIN ? "(join)" : "", s ? s + 1 : f, t->line);
+		char e[96];
+		if(t->state == T_JOIN)
+			snprintf(e, sizeof e, "[%s(join)]", t->role ? t->role : "thr");
+		else
+			snprintf(e, sizeof e, "[%s@%s:%d]", t->role ? t->role : "thr", s ? s + 1 : f, t->line);
+		int dup = 0;
+		for(int k = 0; k < ne; ++k)
+			dup |= !strcmp(ent[k], e);
+		if(!dup)
+			strcpy(ent[ne++], e);
 	}
+	for(int i = 0; i < ne; ++i)
+		for(int j = i + 1; j < ne; ++j)
+			if(strcmp(ent[j], ent[i]) < 0) {
+				char tmp[96];
+				strcpy(tmp, ent[i]);
+				strcpy(ent[i], ent[j]);
+				strcpy(ent[j], tmp);
+			}
+	for(int i = 0; i < ne && l < (int)sizeof(b) - 100; ++i)
+		l += snprintf(b + l, sizeof(b) - (size_t)l, " %s", ent[i]);
 	if(H->describe && l < (int)sizeof(b) - 100) {
 		l += snprintf(b + l, sizeof(b) - l, " | ");
 		H->describe(b + l, sizeof(b) - (size_t)l);
